@@ -170,7 +170,7 @@ func checkC06(c *run.Ctx) {
 	c.Parallel("list", n, func(i int, r *rand.Rand) {
 		uid := &gen.UID{}
 		id := run.CaseID("list", i)
-		kind := []string{"EdDSA", "EdDSA", "EdDSA", "ES512", "PS512", "ES256-signer"}[(i/2)%6] // i%2 decides about the unknown step
+		kind := []string{"EdDSA", "EdDSA", "EdDSA", "ES512", "PS512", "ES256-signer"}[mix(i, 1, 6)]
 		kp := all[kind][0]
 		l := &c06List{}
 		maxDepth := r.IntN(5)
